@@ -177,19 +177,42 @@ pub fn cross_decode(ctx: &mut Ctx, case: &DictCase) {
             probes.push(last);
             probes.push(after);
         }
-        let real: Option<Vec<String>> = {
-            let f = |a: Option<tantivy_sstable::BlockAddr>| a.map(|a| format!("{}:{}:{}", a.first_ordinal, a.byte_range.start, a.byte_range.end)).unwrap_or_else(|| "-".to_string());
+        let real: Option<Vec<(String, String)>> = {
+            let fa = |a: Option<tantivy_sstable::BlockAddr>| a.map(|a| format!("{}:{}:{}", a.first_ordinal, a.byte_range.start, a.byte_range.end)).unwrap_or_else(|| "-".to_string());
+            let fh = |h: std::io::Result<tantivy_sstable::TermOrdHit>| match h {
+                Ok(tantivy_sstable::TermOrdHit::Exact(o)) => format!("e{o}"),
+                Ok(tantivy_sstable::TermOrdHit::Next(o)) => if o == u64::MAX { "nmax".to_string() } else { format!("n{o}") },
+                Err(_) => "err".to_string(),
+            };
             match case.vk.as_str() {
-                "void" => Dictionary::<VoidSSTable>::from_bytes(OwnedBytes::new(file.clone())).ok().map(|d| probes.iter().map(|k| f(d.sstable_index.get_block_with_key(k))).collect()),
-                "u64" => Dictionary::<MonotonicU64SSTable>::from_bytes(OwnedBytes::new(file.clone())).ok().map(|d| probes.iter().map(|k| f(d.sstable_index.get_block_with_key(k))).collect()),
-                _ => Dictionary::<RangeSSTable>::from_bytes(OwnedBytes::new(file.clone())).ok().map(|d| probes.iter().map(|k| f(d.sstable_index.get_block_with_key(k))).collect()),
+                "void" => Dictionary::<VoidSSTable>::from_bytes(OwnedBytes::new(file.clone())).ok().map(|d| probes.iter().map(|k| (fa(d.sstable_index.get_block_with_key(k)), fh(d.term_ord_or_next(k)))).collect()),
+                "u64" => Dictionary::<MonotonicU64SSTable>::from_bytes(OwnedBytes::new(file.clone())).ok().map(|d| probes.iter().map(|k| (fa(d.sstable_index.get_block_with_key(k)), fh(d.term_ord_or_next(k)))).collect()),
+                _ => Dictionary::<RangeSSTable>::from_bytes(OwnedBytes::new(file.clone())).ok().map(|d| probes.iter().map(|k| (fa(d.sstable_index.get_block_with_key(k)), fh(d.term_ord_or_next(k)))).collect()),
             }
         };
         if let Some(real) = real {
-            let resp = ctx.model.ask(&format!("C15 kblk {} {} {} {}", hex(&file), bl, keys_field(&case.keys), keys_field(&probes)));
+            let resp = ctx.model.ask(&format!("C15 kblk {} {} {} {} {}", case.vk, hex(&file), bl, keys_field(&case.keys), keys_field(&probes)));
             ctx.report.count("file-block-for-key:compared");
-            if resp != real.join(";") {
-                ctx.report.violation("model", "C15:file-block-for-key-model", format!("get_block_with_key on {} probe keys: real index and Lean model (separator routing + store decoded from the file bytes) differ", probes.len()), cj.clone());
+            let got: Vec<&str> = resp.split(';').collect();
+            if got.len() != real.len() {
+                ctx.report.violation("model", "C15:file-block-for-key-model", format!("model answered {} for {} probe keys", &resp[..resp.len().min(60)], real.len()), cj.clone());
+            } else {
+                for (g, (ra, rh)) in got.iter().zip(real.iter()) {
+                    let (ga, gh) = g.split_once('/').unwrap_or((g, "?"));
+                    if ga != ra {
+                        ctx.report.violation("model", "C15:file-block-for-key-model", format!("get_block_with_key: real index {ra}, Lean model (separator routing + store decoded from the file bytes) {ga}"), cj.clone());
+                        break;
+                    }
+                    if gh == "Z" {
+                        ctx.report.count("file-term-ord:zstd-block-skipped");
+                        continue;
+                    }
+                    ctx.report.count("file-term-ord:compared");
+                    if gh != rh {
+                        ctx.report.violation("model", "C15:file-term-ord-model", format!("term_ord_or_next computed by the Lean model from the bytes of a real {} file gives {gh}, the real dictionary {rh}", case.vk), cj.clone());
+                        break;
+                    }
+                }
             }
         }
     }
